@@ -25,6 +25,7 @@ const (
 	KEnv                // harness/environment choice
 )
 
+//go:norace
 func (k Kind) String() string { return [...]string{"T", "S", "E"}[k] }
 
 // Chooser takes every nondeterministic decision. costs[i] is the deviation cost of alternative i
@@ -59,6 +60,7 @@ const (
 	Pruned                  // the explorer had already visited this state (state caching)
 )
 
+//go:norace
 func (s Status) String() string {
 	return [...]string{"done", "quiescent", "stepcap", "failed", "panicked", "pruned"}[s]
 }
@@ -107,7 +109,10 @@ type Thread struct {
 	spawned uint64
 }
 
-func (t *Thread) ID() int      { return t.id }
+//go:norace
+func (t *Thread) ID() int { return t.id }
+
+//go:norace
 func (t *Thread) Name() string { return t.name }
 
 // Runtime is the state of one execution.
@@ -136,7 +141,7 @@ type Runtime struct {
 	trace      []string
 	daemonSp   bool // threads spawned now are daemons (library threads)
 	earlyFires int
-	addrH      map[uintptr]*H
+	addrH      ptab[*H]
 	pruner     Pruner
 	onEnd      []func()
 }
@@ -149,9 +154,13 @@ var (
 )
 
 // Active reports whether an execution is in progress (and not being torn down).
+//
+//go:norace
 func Active() bool { return rt != nil && !rt.aborting }
 
 // Epoch identifies the current execution (0 outside).
+//
+//go:norace
 func Epoch() uint64 {
 	if rt == nil {
 		return 0
@@ -160,6 +169,8 @@ func Epoch() uint64 {
 }
 
 // NowNS returns virtual nanoseconds since the virtual epoch.
+//
+//go:norace
 func NowNS() int64 {
 	if rt == nil {
 		return seqNow
@@ -169,6 +180,8 @@ func NowNS() int64 {
 
 // Run executes main as thread 0 and returns when the execution has ended and every goroutine it
 // started has been unwound.
+//
+//go:norace
 func Run(cfg Config, main func()) *Outcome {
 	if rt != nil {
 		panic("vrt: nested Run")
@@ -181,7 +194,9 @@ func Run(cfg Config, main func()) *Outcome {
 	}
 	epochCtr++
 	r := &Runtime{cfg: cfg, epoch: epochCtr, finished: make(chan struct{}, 1)}
-	r.pruner, _ = cfg.Chooser.(Pruner)
+	if !RaceEnabled { // the explorer's state cache is a Go map: not usable from several goroutines under TSan
+		r.pruner, _ = cfg.Chooser.(Pruner)
+	}
 	rt = r
 	execBegin()
 	t := r.spawn("main", main)
@@ -223,12 +238,15 @@ func Run(cfg Config, main func()) *Outcome {
 	return out
 }
 
+//go:norace
 func (t *Thread) info() ThreadInfo {
 	st := [...]string{"runnable", "blocked", "done"}[t.state]
 	return ThreadInfo{ID: t.id, Name: t.name, State: st, Blocked: t.blocked, Daemon: t.daemon}
 }
 
 // Threads returns a snapshot of all threads of the running execution.
+//
+//go:norace
 func Threads() []ThreadInfo {
 	if rt == nil {
 		return nil
@@ -241,6 +259,8 @@ func Threads() []ThreadInfo {
 }
 
 // ArmedTimers returns the number of armed timers.
+//
+//go:norace
 func ArmedTimers() int {
 	n := 0
 	if rt != nil {
@@ -254,6 +274,8 @@ func ArmedTimers() int {
 }
 
 // OnEnd registers f to run (on the host goroutine) after the execution has been torn down.
+//
+//go:norace
 func OnEnd(f func()) {
 	if rt != nil {
 		rt.onEnd = append(rt.onEnd, f)
@@ -267,6 +289,7 @@ func handoff(t *Thread) {
 	raceEnable()
 }
 
+//go:norace
 func (r *Runtime) spawn(name string, fn func()) *Thread {
 	t := &Thread{id: len(r.threads), name: name, wake: make(chan struct{}, 1), exited: make(chan struct{}), daemon: r.daemonSp}
 	if p := r.cur; p != nil {
@@ -285,6 +308,8 @@ func (r *Runtime) spawn(name string, fn func()) *Thread {
 
 // Go starts fn as a new virtual thread. Outside an execution the call is counted and dropped
 // (package-level initialisers such as SystemTimedSched).
+//
+//go:norace
 func Go(name string, fn func()) {
 	r := rt
 	if r == nil {
@@ -301,6 +326,8 @@ func Go(name string, fn func()) {
 }
 
 // GoDaemon marks threads spawned inside f as library daemons (informational).
+//
+//go:norace
 func Daemons(f func()) {
 	if rt == nil {
 		f()
@@ -312,6 +339,7 @@ func Daemons(f func()) {
 	rt.daemonSp = old
 }
 
+//go:norace
 func (r *Runtime) trampoline(t *Thread, fn func()) {
 	defer close(t.exited)
 	raceDisable()
@@ -351,6 +379,7 @@ func (r *Runtime) trampoline(t *Thread, fn func()) {
 
 type abortSignal struct{}
 
+//go:norace
 func trimStack(s string) string {
 	lines := strings.Split(s, "\n")
 	var out []string
@@ -371,6 +400,8 @@ func trimStack(s string) string {
 
 // finish ends the execution; the caller must not touch shared state afterwards. A live caller parks
 // until teardown.
+//
+//go:norace
 func (r *Runtime) finish(st Status) {
 	if r.ended {
 		return
@@ -381,11 +412,14 @@ func (r *Runtime) finish(st Status) {
 }
 
 // endAndPark ends the execution from a live thread.
+//
+//go:norace
 func (r *Runtime) endAndPark(st Status) {
 	r.finish(st)
 	r.parkForever()
 }
 
+//go:norace
 func (r *Runtime) parkForever() {
 	t := r.cur
 	raceDisable()
@@ -395,6 +429,8 @@ func (r *Runtime) parkForever() {
 }
 
 // Fail records a violation for this execution and ends it.
+//
+//go:norace
 func Fail(format string, args ...any) {
 	r := rt
 	msg := fmt.Sprintf(format, args...)
@@ -410,6 +446,7 @@ func Fail(format string, args ...any) {
 	r.endAndPark(Failed)
 }
 
+//go:norace
 func (r *Runtime) tracef(format string, args ...any) {
 	if len(r.trace) < 4000 {
 		name := "-"
@@ -421,12 +458,15 @@ func (r *Runtime) tracef(format string, args ...any) {
 }
 
 // Tracef adds a harness line to the trace when tracing is on.
+//
+//go:norace
 func Tracef(format string, args ...any) {
 	if rt != nil && rt.cfg.Trace && !rt.aborting {
 		rt.tracef(format, args...)
 	}
 }
 
+//go:norace
 func (r *Runtime) ready(t *Thread) {
 	if t.state == tDone {
 		return
@@ -439,10 +479,13 @@ func (r *Runtime) ready(t *Thread) {
 	}
 }
 
+//go:norace
 func (r *Runtime) dequeue(t *Thread) {
 	for i, x := range r.runq {
 		if x == t {
-			copy(r.runq[i:], r.runq[i+1:])
+			for j := i; j+1 < len(r.runq); j++ { // no copy(): runtime.slicecopy is race-instrumented
+				r.runq[j] = r.runq[j+1]
+			}
 			r.runq = r.runq[:len(r.runq)-1]
 			break
 		}
@@ -451,6 +494,8 @@ func (r *Runtime) dequeue(t *Thread) {
 }
 
 // Point is a scheduling point: any runnable thread may run next.
+//
+//go:norace
 func Point(label string) {
 	r := rt
 	if r == nil || r.aborting {
@@ -459,6 +504,7 @@ func Point(label string) {
 	r.point(label)
 }
 
+//go:norace
 func (r *Runtime) point(label string) {
 	r.steps++
 	if r.steps > r.cfg.MaxSteps {
@@ -467,10 +513,15 @@ func (r *Runtime) point(label string) {
 	if r.cfg.Trace {
 		r.tracef("%s", label)
 	}
+	// every scheduling point is a step of the thread's own history (a point without an object event,
+	// e.g. Yield, must still change the fingerprint: the thread's local state has advanced)
+	r.cur.h = mix(r.cur.h, H{}, 0x01)
 	r.reschedule(true)
 }
 
 // block parks the current thread until ready() is called for it.
+//
+//go:norace
 func (r *Runtime) block(label string) {
 	t := r.cur
 	t.state = tBlocked
@@ -481,6 +532,7 @@ func (r *Runtime) block(label string) {
 	r.reschedule(false)
 }
 
+//go:norace
 func (r *Runtime) blockForever(label string) {
 	for {
 		r.block(label)
@@ -489,6 +541,8 @@ func (r *Runtime) blockForever(label string) {
 
 // reschedule picks the next thread. curRunnable: the calling thread may continue.
 // For a thread in state done the function returns after handing the token on.
+//
+//go:norace
 func (r *Runtime) reschedule(curRunnable bool) {
 	cur := r.cur
 	for {
@@ -498,7 +552,9 @@ func (r *Runtime) reschedule(curRunnable bool) {
 		if curRunnable {
 			en = append(en, cur)
 		}
-		en = append(en, r.runq...)
+		for _, q := range r.runq {
+			en = append(en, q)
+		}
 		r.enBuf = en
 		next := r.nextTimer()
 		if len(en) == 0 {
@@ -586,6 +642,7 @@ func (r *Runtime) reschedule(curRunnable bool) {
 	}
 }
 
+//go:norace
 func (r *Runtime) choose(kind Kind, n int, costs []int8, label string) int {
 	r.points++
 	c := r.cfg.Chooser.Choose(kind, n, costs, label)
@@ -599,6 +656,8 @@ func (r *Runtime) choose(kind Kind, n int, costs []int8, label string) int {
 }
 
 // Choose is a free environment choice made by the harness.
+//
+//go:norace
 func Choose(n int, label string) int {
 	r := rt
 	if r == nil {
@@ -613,6 +672,8 @@ func Choose(n int, label string) int {
 }
 
 // ChooseDev is an environment choice whose non-default alternatives cost one deviation each.
+//
+//go:norace
 func ChooseDev(n int, label string) int {
 	r := rt
 	if r == nil {
@@ -632,6 +693,8 @@ func ChooseDev(n int, label string) int {
 
 // Idle blocks the calling thread until nothing else is runnable and no timer is due within d of
 // virtual time from now. It is how a harness "lets the system run" for a bounded virtual duration.
+//
+//go:norace
 func Idle(d time.Duration) {
 	r := rt
 	if r == nil || r.aborting {
@@ -646,9 +709,13 @@ func Idle(d time.Duration) {
 }
 
 // Yield is an explicit scheduling point for harness code.
+//
+//go:norace
 func Yield() { Point("yield") }
 
 // EarlyFires returns how many times a timer was fired early (a C-deviation) in this execution.
+//
+//go:norace
 func EarlyFires() int {
 	if rt == nil {
 		return 0
